@@ -60,7 +60,7 @@ TStepOp ==
         newWait == ToSet(e.waiting)
         okey    == IF srcKey THEN e.s ELSE e.t          \* offer events
         oval    == IF srcKey THEN e.t ELSE e.s
-        newUse  == IF e.op = "offer" THEN inuse \cup {okey} ELSE inuse
+        newUse  == IF e.op \in {"offer", "offerfail"} THEN inuse \cup {okey} ELSE inuse
         vals    == {p[ValIdx(srcKey)] : p \in newAsg}
         keys    == {p[KeyIdx(srcKey)] : p \in newAsg}
         \* known finding 1: a forwarded channel is taken although it is full by now
@@ -77,7 +77,7 @@ TStepOp ==
         taint2  == tainted \/ badkey
     IN
     /\ l > 1 /\ cS > 0
-    /\ e.op \in {"offer", "fwdcheck", "handoff"}
+    /\ e.op \in {"offer", "offerfail", "fwdcheck", "handoff"}
     /\ asg' = newAsg /\ inuse' = newUse /\ wait' = newWait /\ excess' = exc2 /\ tainted' = taint2
     /\ UNCHANGED <<cS, cT, names>>
     /\ (stale => PrintT("KF " \o Traces[tr].plan \o " C16_stale_forward"))
@@ -92,7 +92,7 @@ TStepOp ==
           /\ newWait \subseteq newUse
           /\ \A k \in newUse \ newWait : Cardinality(PartnersOfKey(newAsg, srcKey, k)) = 1   \* Total
           /\ \A k \in newWait : PartnersOfKey(newAsg, srcKey, k) = {}
-          /\ (e.op = "offer" /\ okey \notin inuse /\ okey \in newWait)                 \* waiting must be justified
+          /\ (e.op \in {"offer", "offerfail"} /\ okey \notin inuse /\ okey \in newWait)                 \* waiting must be justified
                 => CountOfVal(asg, srcKey, oval) >= quota
           /\ (~e.enabled => newAsg = asg)
 
